@@ -112,6 +112,19 @@ CLAIMED = {
         "self-applying expression reference (F13) are known findings, classified by nesting depth > 1000 resp. by the model's divergence.",
    design="DESIGN.md §7 C05",
    technique="Lean 4 theorems (fuel sufficiency, termination, no-fault slices, divergence witness) + panic/abort/hang harness streams"),
+ "C02": dict(
+   text="Machine-checked theorems (Lean 4; 57 lemmas, 23 restated as property theorems) over the model of functions.rs, each for all well-typed "
+        "arguments: sort/sort_by are stable ascending permutations (code-point order on strings, double order on numbers), max/min/max_by/"
+        "min_by return an input element with the extreme key (first on ties for *_by), merge is right-biased, length/reverse count code points, "
+        "keys/values zip to the members, to_number yields a number or null only, avg [] = null and avg = sum/len, map preserves length and "
+        "evaluates the reference once per element in order, not_null returns the first non-null, contains/starts_with/ends_with are "
+        "infix/prefix/suffix, join is intercalate. Tied to the code by the `eval` stream on generated well-typed calls (arrays to 64 "
+        "elements with duplicate keys, all Unicode planes, calls inside projections and other calls), each result compared with the model "
+        "and with an independent Python reference semantics of the function specification (tools/fnspec.py).",
+   note="Trusted: Lean kernel; slice::sort modelled as a stable merge sort (List.mergeSort); abs/ceil/floor/sum/avg arithmetic is the soft-float "
+        "model validated by the stream (their numeric contracts are checked against Python floats, not proved); tools/fnspec.py as the reading of the function specification.",
+   design="DESIGN.md §7 C02",
+   technique="Lean 4 contract theorems per builtin + correspondence + independent reference-semantics oracle"),
 }
 
 NOT_YET = "check not built yet in this session (work in progress; see DESIGN.md §10 for the order of work)"
